@@ -322,7 +322,8 @@ func GenWorldCfg(g *Rng, opt GenOpts) (World, map[string]any) {
 		for i := 0; i < n; i++ {
 			x.addFile(fmt.Sprintf("src/share/g/f%d.txt", i), x.sizeSmall(), 0o644)
 		}
-		if g.Bool(0.5) {
+		deep := g.Bool(0.5)
+		if deep {
 			x.addFile("src/share/g/sub/deep.txt", x.sizeSmall(), 0o640)
 		}
 		x.addFile("src/share/g/other.dat", 10, 0o644)
@@ -330,10 +331,10 @@ func GenWorldCfg(g *Rng, opt GenOpts) (World, map[string]any) {
 		switch {
 		case disableGlob:
 			src = "@SRC@src/share/g" // directory source: contents below it
-		case g.Bool(0.5):
+		case g.Bool(0.5) || !deep:
 			src = "@SRC@src/share/g/*.txt"
 		default:
-			src = "@SRC@src/share/g/**/*"
+			src = "@SRC@src/share/g/**/*" // needs at least one nested directory to match
 		}
 		m := map[string]any{"src": src, "dst": "/usr/share/app"}
 		if g.Bool(fiP) {
